@@ -17,6 +17,7 @@ import (
 	"encoding/json"
 	"fmt"
 	"os"
+	"runtime/debug"
 	"sort"
 	"strings"
 	"testing"
@@ -942,6 +943,652 @@ func c16SortedKeysC11(m map[string]int) []string {
 }
 
 // ---------------------------------------------------------------------------------------------
+// Part 2: who may change a rule (real node)
+// ---------------------------------------------------------------------------------------------
+
+// c11Auth is one AuthRequire entry: the URI and the key that signs for it (Key != last component of
+// URI: a forged entry - the name stays unverified).
+type c11Auth struct {
+	URI string `json:"uri"`
+	Key string `json:"key"`
+}
+
+// c11PStep is one step of the pipeline machine.
+//   setup : contract->account mapping, accounts acc and X2 created through $acl.NewAccount, one block
+//   change: SetAccountAcl(Target) / SetMethodAcl(counter.inc, owned by acc) with rule Rule, signed by Auth
+//   mine  : the node's own block; walk: State.Walk to block Target index; sync: walk to the ledger tip
+type c11PStep struct {
+	Op     string    `json:"op"`
+	Kind   string    `json:"kind,omitempty"`   // change: "account" | "method"
+	Target string    `json:"target,omitempty"` // change: account symbol
+	Rule   *c11Rule  `json:"rule,omitempty"`
+	Rule2  *c11Rule  `json:"rule2,omitempty"` // setup: rule of X2
+	Auth   []c11Auth `json:"auth,omitempty"`
+	Block  int       `json:"block,omitempty"` // walk target (model block index)
+}
+
+type c11Pipe struct {
+	nm      *hx.NodeMachine
+	byJSON  map[string]c11Rule // ACL JSON as stored on chain -> descriptor
+	base    int                // index of the setup block (never undone)
+	stat    map[string]int
+	ntSteps int
+	lastMsg string
+}
+
+func c11RuleJSON(r c11Rule) string {
+	b, _ := json.Marshal(c11ACL(r))
+	return string(b)
+}
+
+// rulesAt reads the account rules out of a MODEL state (the harness' own bookkeeping of the chain).
+func (p *c11Pipe) rulesAt(s *hx.MState) (map[string]c11Rule, error) {
+	out := map[string]c11Rule{}
+	for _, sym := range []string{"acc", "X2", "other"} {
+		kv := s.KV[hx.RawKey(aclu.GetAccountBucket(), c11Real(sym))]
+		if kv == nil || kv.Deleted() {
+			continue
+		}
+		r, ok := p.byJSON[string(kv.Value)]
+		if !ok {
+			return nil, fmt.Errorf("harness: unknown rule text %q stored for %s", kv.Value, sym)
+		}
+		out[sym] = r
+	}
+	return out, nil
+}
+
+func (p *c11Pipe) confirmedRules() (map[string]c11Rule, error) { return p.rulesAt(p.nm.States[p.nm.Ptr]) }
+func (p *c11Pipe) pendingRules() (map[string]c11Rule, error)   { return p.rulesAt(p.nm.PoolState()) }
+
+func c11NoteKeys(nm *hx.NodeMachine, tx *pb.Transaction) {
+	for _, o := range tx.TxOutputsExt {
+		if o.Bucket != hx.TransientBucket {
+			nm.KeyUniv[hx.RawKey(o.Bucket, string(o.Key))] = true
+		}
+	}
+	for _, i := range tx.TxInputsExt {
+		nm.KeyUniv[hx.RawKey(i.Bucket, string(i.Key))] = true
+	}
+}
+
+// c11Spec completes a contract-call spec of payer P (ring 0) on model state s: one input of P, the
+// fee output the pre-execution asks for, change back to P.
+func (p *c11Pipe) c11Spec(s *hx.MState, contract, method string, args map[string]string, prog []hx.Ins) (*hx.TxSpec, error) {
+	nm := p.nm
+	nm.Seq++
+	spec := &hx.TxSpec{From: 0, Seq: nm.Seq, Version: 3, Contract: contract, Method: method, Args: args, Prog: prog}
+	_, pre := nm.BuildOnModel(spec, s)
+	if pre == nil || pre.Err != nil {
+		var e error
+		if pre != nil {
+			e = pre.Err
+		}
+		return nil, fmt.Errorf("pre-execution failed: %v", e)
+	}
+	gas := pre.GasUsed
+	for _, u := range s.UtxosOf(hx.Ring[0].Address) {
+		if u.Frozen != 0 || !u.Amount.IsInt64() || u.Amount.Int64() < gas+1 {
+			continue
+		}
+		spec.Ins = []hx.InRef{{Addr: 0, Txid: hex.EncodeToString(u.Txid), Off: u.Off, Amount: u.Amount.String()}}
+		if gas > 0 {
+			spec.Outs = append(spec.Outs, hx.OutSpec{To: -1, Amount: fmt.Sprint(gas)})
+		}
+		spec.Outs = append(spec.Outs, hx.OutSpec{To: 0, Amount: fmt.Sprint(u.Amount.Int64() - gas)})
+		return spec, nil
+	}
+	return nil, fmt.Errorf("harness: payer has no output >= %d", gas+1)
+}
+
+// c11BuildTx assembles the transaction of spec on model state s and signs it for the AuthRequire
+// list auth (entry i signed by auth[i].Key), initiator = ring key spec.From.
+func c11BuildTx(nm *hx.NodeMachine, spec *hx.TxSpec, s *hx.MState, auth []c11Auth) (*pb.Transaction, error) {
+	tx, pre := nm.BuildOnModel(spec, s)
+	if tx == nil {
+		var e error
+		if pre != nil {
+			e = pre.Err
+		}
+		return nil, fmt.Errorf("pre-execution failed: %v", e)
+	}
+	tx.AuthRequire = []string{}
+	for _, a := range auth {
+		tx.AuthRequire = append(tx.AuthRequire, c11RealURI(a.URI))
+	}
+	digest, err := txhash.MakeTxDigestHash(tx)
+	if err != nil {
+		return nil, err
+	}
+	ik := hx.Ring[spec.From]
+	tx.InitiatorSigns = []*protos.SignatureInfo{{PublicKey: ik.PubJSON, Sign: hx.DetSign(ik.Priv, digest)}}
+	tx.AuthRequireSigns = []*protos.SignatureInfo{}
+	for _, a := range auth {
+		k := c11KeyOfSym(a.Key)
+		if k == nil {
+			return nil, fmt.Errorf("bad step: signing key %q", a.Key)
+		}
+		tx.AuthRequireSigns = append(tx.AuthRequireSigns, &protos.SignatureInfo{PublicKey: k.PubJSON, Sign: hx.DetSign(k.Priv, digest)})
+	}
+	tx.Txid, err = txhash.MakeTransactionID(tx)
+	return tx, err
+}
+
+func c11LastComp(uri string) string {
+	parts := c11Split(uri)
+	return parts[len(parts)-1]
+}
+
+// c11ForeignOrMiddle: does the list contain a URI of another account's path or a key in the middle?
+func c11ForeignOrMiddle(owner string, uris []string) bool {
+	for _, u := range uris {
+		parts := c11Split(u)
+		if len(parts) >= 2 && parts[0] != owner && c11IsAccountSym(parts[0]) {
+			return true
+		}
+		for _, q := range parts[:len(parts)-1] {
+			if !c11IsAccountSym(q) {
+				return true
+			}
+		}
+	}
+	return false
+}
+
+func (p *c11Pipe) checkNode() error {
+	if err := p.nm.CheckState(); err != nil {
+		return err
+	}
+	return p.nm.LM.CheckInvariant()
+}
+
+// apply executes one step; a returned error is an oracle failure.
+func (p *c11Pipe) apply(st c11PStep) error {
+	nm := p.nm
+	m := nm.LM.M
+	p.lastMsg = ""
+	switch st.Op {
+	case "setup":
+		if st.Rule == nil || st.Rule2 == nil {
+			return fmt.Errorf("bad step: setup without rules")
+		}
+		// contract -> owning account mapping (written while acc has no rule yet: everyone passes)
+		spec, err := p.c11Spec(nm.PoolState(), "", "", nil, []hx.Ins{{Op: "put", B: aclu.GetContract2AccountBucket(), K: c11MethodContract, V: c11Real("acc")}})
+		if err != nil {
+			return err
+		}
+		if err := p.applyTxOp(spec); err != nil {
+			return err
+		}
+		for _, a := range []struct {
+			sym string
+			r   c11Rule
+		}{{"acc", *st.Rule}, {"X2", *st.Rule2}} {
+			js := c11RuleJSON(a.r)
+			p.byJSON[js] = a.r
+			spec, err := p.c11Spec(nm.PoolState(), "$acl", "NewAccount", map[string]string{"account_name": c11AccountNumber[a.sym], "acl": js}, nil)
+			if err != nil {
+				return err
+			}
+			if err := p.applyTxOp(spec); err != nil {
+				return err
+			}
+		}
+		if err := nm.Apply(hx.NOp{Op: "mine", Label: fmt.Sprintf("b%d", len(m.Blocks))}); err != nil {
+			return err
+		}
+		p.base = nm.Ptr
+		cr, err := p.confirmedRules()
+		if err != nil {
+			return err
+		}
+		if len(cr) != 2 {
+			return fmt.Errorf("harness: setup block did not create both accounts: %v", cr)
+		}
+		return p.checkNode()
+	case "mine":
+		if nm.Ptr != m.Tip {
+			p.stat["mine-skipped"]++
+			return nil
+		}
+		npend := len(nm.Pool)
+		if err := nm.Apply(hx.NOp{Op: "mine", Label: fmt.Sprintf("b%d", len(m.Blocks))}); err != nil {
+			return err
+		}
+		p.stat["mine"]++
+		if npend > 0 {
+			p.stat["mine-confirms-rule-change"]++
+		}
+		return p.checkNode()
+	case "sync":
+		if err := nm.Apply(hx.NOp{Op: "sync"}); err != nil {
+			return err
+		}
+		return p.checkNode()
+	case "walk":
+		if st.Block < p.base || st.Block >= len(m.Blocks) || !m.OnMain(st.Block) {
+			return nil
+		}
+		if err := nm.Apply(hx.NOp{Op: "walk", Target: st.Block}); err != nil {
+			return err
+		}
+		if nm.LastUndo > 0 {
+			p.stat["walk-back"]++
+		}
+		return p.checkNode()
+	case "change":
+		return p.change(st)
+	}
+	return fmt.Errorf("bad step: op %q", st.Op)
+}
+
+func (p *c11Pipe) applyTxOp(spec *hx.TxSpec) error {
+	nm := p.nm
+	if err := nm.Apply(hx.NOp{Op: "tx", Tx: spec}); err != nil {
+		return err
+	}
+	if nm.LastOutcome != "admitted" {
+		return fmt.Errorf("harness: setup transaction %s.%s not admitted (%s)", spec.Contract, spec.Method, nm.LastOutcome)
+	}
+	c11NoteKeys(nm, nm.Pool[len(nm.Pool)-1])
+	return nil
+}
+
+// c11ChangeView is what the oracle of a change step sees (also used by the generator).
+type c11ChangeView struct {
+	owner       string
+	confirmed   map[string]c11Rule
+	pending     map[string]c11Rule
+	verified    []string // URIs whose last component is a verified signer
+	allVerified bool
+	want        bool // statement: the change is authorised
+	wantPending bool // what the pending (unconfirmed) rules would say
+	hasPending  bool // the owner's (or a nested member's) rule has an unconfirmed change
+}
+
+func (p *c11Pipe) view(st c11PStep) (*c11ChangeView, error) {
+	v := &c11ChangeView{owner: st.Target}
+	if st.Kind == "method" {
+		v.owner = "acc" // counter is owned by acc (setup)
+	} else if st.Kind != "account" {
+		return nil, fmt.Errorf("bad step: change kind %q", st.Kind)
+	}
+	if st.Target != "acc" && st.Target != "X2" {
+		return nil, fmt.Errorf("bad step: target %q", st.Target)
+	}
+	var err error
+	if v.confirmed, err = p.confirmedRules(); err != nil {
+		return nil, err
+	}
+	if v.pending, err = p.pendingRules(); err != nil {
+		return nil, err
+	}
+	// verified signers: the initiator and every name with a valid signature in the transaction
+	names := map[string]bool{"P": true}
+	var all []string
+	for _, a := range st.Auth {
+		all = append(all, a.URI)
+		if c11LastComp(a.URI) == a.Key {
+			names[a.Key] = true
+		}
+	}
+	if err := c11CheckURIs(all); err != nil {
+		return nil, err
+	}
+	for _, u := range all {
+		if names[c11LastComp(u)] {
+			v.verified = append(v.verified, u)
+		}
+	}
+	v.allVerified = len(v.verified) == len(all)
+	v.want = c11Ref(v.confirmed, v.owner, v.verified)
+	v.wantPending = c11Ref(v.pending, v.owner, v.verified)
+	v.hasPending = c11RuleText(v.confirmed, "") != c11RuleText(v.pending, "")
+	return v, nil
+}
+
+func (p *c11Pipe) change(st c11PStep) error {
+	nm := p.nm
+	if st.Rule == nil {
+		return fmt.Errorf("bad step: change without rule")
+	}
+	v, err := p.view(st)
+	if err != nil {
+		return err
+	}
+	if _, exists := v.confirmed[st.Target]; !exists {
+		return fmt.Errorf("bad step: account %s does not exist on the confirmed chain", st.Target)
+	}
+	s := nm.PoolState()
+	js := c11RuleJSON(*st.Rule)
+	p.byJSON[js] = *st.Rule
+	var spec *hx.TxSpec
+	if st.Kind == "account" {
+		spec, err = p.c11Spec(s, "$acl", "SetAccountAcl", map[string]string{"account_name": c11Real(st.Target), "acl": js}, nil)
+	} else {
+		spec, err = p.c11Spec(s, "$acl", "SetMethodAcl", map[string]string{"contract_name": c11MethodContract, "method_name": c11MethodName, "acl": js}, nil)
+	}
+	if err != nil {
+		return fmt.Errorf("harness: %v", err)
+	}
+	tx, err := c11BuildTx(nm, spec, s, st.Auth)
+	if err != nil {
+		return fmt.Errorf("harness: %v", err)
+	}
+	if merr := s.Check(tx, nm.LM.M.Blocks[nm.LM.M.Tip].Height); merr != nil {
+		return fmt.Errorf("harness: generated transaction is not current on the model: %v", merr)
+	}
+	sub := hx.CloneTx(tx)
+	ok, verr := nm.N.State.VerifyTx(sub)
+	accepted := ok && verr == nil
+	what := fmt.Sprintf("%s rule change of %s signed by %s; rule of owner %s on the confirmed chain %s (pending state: %s)",
+		st.Kind, st.Target, c11AuthText(st.Auth), v.owner, c11RuleText(v.confirmed, ""), c11RuleText(v.pending, ""))
+	if accepted && !v.want {
+		return fmt.Errorf("VerifyTx ACCEPTS a %s although the verified signers %v do not satisfy the owner's confirmed rule", what, v.verified)
+	}
+	if !accepted && v.want && v.allVerified {
+		return fmt.Errorf("VerifyTx REFUSES (%v) a %s although the verified signers satisfy the owner's confirmed rule", verr, what)
+	}
+	if accepted {
+		if derr := nm.N.State.DoTx(sub); derr != nil {
+			return fmt.Errorf("DoTx refuses (%v) a verified %s", derr, what)
+		}
+		nm.Pool = append(nm.Pool, tx)
+		c11NoteKeys(nm, tx)
+		p.stat["change-accepted"]++
+	} else {
+		p.stat["change-refused"]++
+		if verr != nil && v.allVerified && verr.Error() != "ACL not enough" {
+			p.stat["refused-with-other-error"]++
+		}
+	}
+	p.stat["change:"+st.Kind]++
+	if !v.allVerified {
+		p.stat["forged-entry"]++
+	}
+	nt := false
+	if v.hasPending {
+		p.stat["change-while-rule-change-pending"]++
+		if v.want != v.wantPending {
+			p.stat["confirmed-and-pending-rule-disagree"]++
+			nt = true
+		}
+	}
+	if c11ForeignOrMiddle(v.owner, v.verified) {
+		p.stat["foreign-or-middle-uri"]++
+		nt = true
+	}
+	if nt {
+		p.ntSteps++
+	}
+	return p.checkNode()
+}
+
+func c11AuthText(auth []c11Auth) string {
+	var ss []string
+	for _, a := range auth {
+		if c11LastComp(a.URI) == a.Key {
+			ss = append(ss, a.URI)
+		} else {
+			ss = append(ss, a.URI+"(signed by "+a.Key+")")
+		}
+	}
+	return "[" + strings.Join(ss, " ") + "]"
+}
+
+func c11NewPipe(fs *hx.FindingSet) (*c11Pipe, error) {
+	nm, err := hx.NewNodeMachine(hx.DefaultOpts(), fs)
+	if err != nil {
+		return nil, err
+	}
+	return &c11Pipe{nm: nm, byJSON: map[string]c11Rule{}, stat: map[string]int{}}, nil
+}
+
+// c11RunPipelineTrace replays a recorded pipeline history.
+func c11RunPipelineTrace(steps []c11PStep, fs *hx.FindingSet) error {
+	p, err := c11NewPipe(fs)
+	if err != nil {
+		return err
+	}
+	defer p.nm.Close()
+	for i, st := range steps {
+		if err := p.apply(st); err != nil {
+			b, _ := json.Marshal(st)
+			return fmt.Errorf("step %d %s: %v", i, b, err)
+		}
+	}
+	return nil
+}
+
+// ---- generators ----
+
+var c11Keys = []string{"A", "B", "C", "D"}
+
+// c11DrawRule draws a rule for target (only acc may name X2 as a member). Rules that validACL
+// refuses (no member / no set) and float-ambiguous rules are not drawn.
+func c11DrawRule(rt *rapid.T, target string, label string) c11Rule {
+	names := append([]string{}, c11Keys...)
+	if target == "acc" {
+		names = append(names, "X2")
+	}
+	for try := 0; ; try++ {
+		var r c11Rule
+		if rapid.IntRange(0, 9).Draw(rt, label+"kind") < 7 {
+			r.Kind = "threshold"
+			n := rapid.IntRange(1, 3).Draw(rt, label+"nmem")
+			perm := rapid.Permutation(names).Draw(rt, label+"members")
+			for _, nme := range perm[:n] {
+				r.M = append(r.M, c11Member{nme, rapid.SampledFrom([]int{4, 6, 10, 10, 0}).Draw(rt, label+"w")})
+			}
+			sort.Slice(r.M, func(i, j int) bool { return r.M[i].Name < r.M[j].Name })
+			r.Accept = rapid.SampledFrom([]int{5, 10, 10, 15, 20}).Draw(rt, label+"accept")
+		} else {
+			r.Kind = "aksets"
+			ns := rapid.IntRange(1, 2).Draw(rt, label+"nsets")
+			for i := 0; i < ns; i++ {
+				k := rapid.IntRange(1, 2).Draw(rt, label+"setsize")
+				perm := rapid.Permutation(c11Keys).Draw(rt, label+"set")
+				set := append([]string{}, perm[:k]...)
+				sort.Strings(set)
+				r.Sets = append(r.Sets, set)
+			}
+		}
+		if c11FloatSafe(r) || try > 20 {
+			return r
+		}
+	}
+}
+
+// c11Candidates: the URIs a signer set for owner is drawn from.
+func c11Candidates(owner string) (useful, junk []string) {
+	nested := "X2"
+	if owner == "X2" {
+		nested = "acc"
+	}
+	for _, k := range c11Keys {
+		useful = append(useful, owner+"/"+k)
+	}
+	for _, k := range c11Keys {
+		if owner == "acc" {
+			useful = append(useful, owner+"/"+nested+"/"+k)
+		} else {
+			junk = append(junk, owner+"/"+nested+"/"+k)
+		}
+		junk = append(junk, nested+"/"+k, "other/"+k, k)
+		for _, k2 := range c11Keys {
+			if k2 != k {
+				junk = append(junk, owner+"/"+k+"/"+k2)
+			}
+		}
+	}
+	return useful, junk
+}
+
+// c11SatisfyingSets lists the minimal-ish subsets (size <= 3) of useful URIs that satisfy owner's rule.
+func c11SatisfyingSets(rules map[string]c11Rule, owner string, useful []string) [][]string {
+	var out [][]string
+	n := len(useful)
+	for mask := 1; mask < 1<<uint(n); mask++ {
+		var sub []string
+		for i := 0; i < n; i++ {
+			if mask&(1<<uint(i)) != 0 {
+				sub = append(sub, useful[i])
+			}
+		}
+		if len(sub) <= 3 && c11Ref(rules, owner, sub) {
+			out = append(out, sub)
+		}
+	}
+	return out
+}
+
+func c11GenChange(rt *rapid.T, p *c11Pipe) (c11PStep, error) {
+	st := c11PStep{Op: "change", Kind: "account", Target: "acc"}
+	switch rapid.IntRange(0, 9).Draw(rt, "what") {
+	case 0, 1:
+		st.Target = "X2"
+	case 2, 3:
+		st.Kind = "method"
+	}
+	r := c11DrawRule(rt, map[bool]string{true: "acc", false: "X2"}[st.Target == "acc" && st.Kind == "account"], "new")
+	st.Rule = &r
+	v, err := p.view(st)
+	if err != nil {
+		return st, err
+	}
+	useful, junk := c11Candidates(v.owner)
+	var uris []string
+	pick := func(sets [][]string, label string) bool {
+		if len(sets) == 0 {
+			return false
+		}
+		uris = append(uris, sets[rapid.IntRange(0, len(sets)-1).Draw(rt, label)]...)
+		return true
+	}
+	mode := rapid.IntRange(0, 9).Draw(rt, "signers")
+	switch {
+	case mode < 3: // satisfies the confirmed rule
+		pick(c11SatisfyingSets(v.confirmed, v.owner, useful), "satc")
+	case mode < 6 && v.hasPending: // satisfies the pending rule
+		pick(c11SatisfyingSets(v.pending, v.owner, useful), "satp")
+	case mode < 8: // a satisfying set with one signer dropped or moved to a foreign / middle path
+		if pick(c11SatisfyingSets(v.confirmed, v.owner, useful), "satd") && len(uris) > 0 {
+			i := rapid.IntRange(0, len(uris)-1).Draw(rt, "victim")
+			k := c11LastComp(uris[i])
+			switch rapid.IntRange(0, 3).Draw(rt, "twist") {
+			case 0:
+				uris = append(uris[:i:i], uris[i+1:]...)
+			case 1:
+				uris[i] = "other/" + k
+			case 2:
+				other := rapid.SampledFrom(c11Keys).Draw(rt, "attacker")
+				if other != k {
+					uris[i] = uris[i] + "/" + other // the member in the middle, somebody else signs
+				}
+			default:
+				uris[i] = k
+			}
+		}
+	default:
+		n := rapid.IntRange(0, 3).Draw(rt, "nrand")
+		for i := 0; i < n; i++ {
+			uris = append(uris, rapid.SampledFrom(useful).Draw(rt, "ru"))
+		}
+	}
+	// noise: junk URIs, duplicates, order
+	for rapid.IntRange(0, 9).Draw(rt, "junk") < 3 && len(uris) < 5 {
+		uris = append(uris, rapid.SampledFrom(junk).Draw(rt, "ju"))
+	}
+	if len(uris) > 0 && rapid.IntRange(0, 9).Draw(rt, "dup") < 2 {
+		uris = append(uris, uris[rapid.IntRange(0, len(uris)-1).Draw(rt, "dupi")])
+	}
+	if len(uris) > 1 {
+		uris = rapid.Permutation(uris).Draw(rt, "order")
+	}
+	for _, u := range uris {
+		a := c11Auth{URI: u, Key: c11LastComp(u)}
+		if rapid.IntRange(0, 24).Draw(rt, "forge") == 0 {
+			a.Key = rapid.SampledFrom(append([]string{"E"}, c11Keys...)).Draw(rt, "forger")
+		}
+		st.Auth = append(st.Auth, a)
+	}
+	return st, nil
+}
+
+func c11RunPipelineCase(cs *hx.Case, fs *hx.FindingSet) {
+	rt := cs.RT()
+	p, err := c11NewPipe(fs)
+	if err != nil {
+		rt.Fatalf("setup: %v", err)
+	}
+	defer p.nm.Close()
+	step := 0
+	exec := func(st c11PStep) {
+		cs.Op(st)
+		if err := p.apply(st); err != nil {
+			b, _ := json.Marshal(st)
+			cs.Failf("step %d %s: %v", step, b, err)
+		}
+		step++
+	}
+	r1 := c11DrawRule(rt, "acc", "acc0")
+	r2 := c11DrawRule(rt, "X2", "x20")
+	exec(c11PStep{Op: "setup", Rule: &r1, Rule2: &r2})
+	n := rapid.IntRange(3, 12).Draw(rt, "steps")
+	for i := 0; i < n; i++ {
+		m := p.nm.LM.M
+		switch k := rapid.IntRange(0, 99).Draw(rt, "op"); {
+		case k < 68:
+			if p.nm.Ptr < p.base {
+				exec(c11PStep{Op: "sync"})
+				continue
+			}
+			st, err := c11GenChange(rt, p)
+			if err != nil {
+				rt.Fatalf("generator: %v", err)
+			}
+			if c11Exclude[c11InnerAK] {
+				v, _ := p.view(st)
+				if v != nil && (c11InnerAKShape(v.confirmed, v.owner, v.verified)) {
+					cs.Exclude(c11InnerAK)
+					continue
+				}
+			}
+			exec(st)
+		case k < 88:
+			if p.nm.Ptr != m.Tip {
+				exec(c11PStep{Op: "sync"})
+			} else {
+				exec(c11PStep{Op: "mine"})
+			}
+		case k < 94:
+			main := m.MainChain()
+			var cands []int
+			for _, b := range main {
+				if b >= p.base && b != p.nm.Ptr {
+					cands = append(cands, b)
+				}
+			}
+			if len(cands) == 0 {
+				exec(c11PStep{Op: "mine"})
+			} else {
+				exec(c11PStep{Op: "walk", Block: cands[rapid.IntRange(0, len(cands)-1).Draw(rt, "walkto")]})
+			}
+		default:
+			exec(c11PStep{Op: "sync"})
+		}
+	}
+	for _, k := range c16SortedKeysC11(p.stat) {
+		if p.stat[k] > 0 {
+			cs.Label(k)
+		}
+	}
+	if p.ntSteps > 0 {
+		cs.Nontrivial()
+	}
+}
+
+// ---------------------------------------------------------------------------------------------
 // witnesses
 // ---------------------------------------------------------------------------------------------
 
@@ -961,6 +1608,13 @@ func init() {
 		return evalC11(cs)
 	}
 	replayers["C11/witness-"+c11InnerAK] = replayers["C11/acl-evaluator"]
+	replayers["C11/acl-pipeline"] = func(raw json.RawMessage, fs *hx.FindingSet) error {
+		var steps []c11PStep
+		if err := json.Unmarshal(raw, &steps); err != nil {
+			return err
+		}
+		return c11RunPipelineTrace(steps, fs)
+	}
 }
 
 func TestC11(t *testing.T) {
@@ -980,11 +1634,15 @@ func TestC11(t *testing.T) {
 			c11Exclude[c11InnerAK] = true
 		}
 	}
-	if c11Enumerate(t, c) > 0 {
+	defer debug.SetGCPercent(debug.SetGCPercent(400))
+	part := os.Getenv("C11_PART") // development aid: "1" / "2" run one part only
+	if part != "2" && c11Enumerate(t, c) > 0 {
 		return
 	}
-	_ = rapid.Bool
-	_ = hex.EncodeToString
-	_ = txhash.MakeTxDigestHash
-	var _ *pb.Transaction
+	if part == "1" {
+		return
+	}
+	c.Check(t, "acl-pipeline", hx.N(150, 1000), func(cs *hx.Case) {
+		c11RunPipelineCase(cs, fs)
+	})
 }
